@@ -48,7 +48,7 @@ ASSUMPTIONS = [
 ]
 
 CLASSES = ["oob_center_faces", "oob_whole_odd", "oob_whole_even", "oob_upper_only", "oob_multi_tomo", "oob_far", "oob_single", "oob_shared_dims",
-           "trim_faces", "trim_random", "dist_near", "dist_cross_tomo", "dist_shifted", "dist_exact_tie",
+           "trim_faces", "trim_random", "trim_start_one", "dist_near", "dist_cross_tomo", "dist_shifted", "dist_exact_tie",
            "mask_inside", "mask_outside", "mask_files_multi", "mask_single_partial"]
 KEY = "oob-lower-face"
 TIE = 1e-6
@@ -57,14 +57,14 @@ FACE = [-1.0, -0.125, 0.0, 0.125, 1.0]
 
 def plan(tier):
     if tier == "quick":
-        return dict(n_cases=720, shards=2, classes=CLASSES, timeout_s=600,
-                    min_evals={"oob_upper_survivors": 480, "oob_lower": 480, "trim_exact": 200, "dist_exact": 330,
-                               "mask_exact": 400, "oob_repr_invariance": 240, "trim_compose": 70,
+        return dict(n_cases=760, shards=2, classes=CLASSES, timeout_s=600,
+                    min_evals={"oob_upper_survivors": 480, "oob_lower": 480, "trim_exact": 300, "trim_start_111": 60, "dist_exact": 330,
+                               "mask_exact": 400, "oob_repr_invariance": 240, "trim_compose": 100,
                                "dist_union_monotone": 60, "mask_complement": 85, "dist_exact_ties_removed": 40, "dims_unchanged": 280},
                     min_known={"oob-lower-face": 50})
-    return dict(n_cases=9540, shards=16, classes=CLASSES, timeout_s=3000,
-                min_evals={"oob_upper_survivors": 6900, "oob_lower": 6900, "trim_exact": 2900, "dist_exact": 4600,
-                           "mask_exact": 5600, "oob_repr_invariance": 3400, "trim_compose": 950,
+    return dict(n_cases=9500, shards=16, classes=CLASSES, timeout_s=3000,
+                min_evals={"oob_upper_survivors": 6900, "oob_lower": 6900, "trim_exact": 4000, "trim_start_111": 800, "dist_exact": 4600,
+                           "mask_exact": 5600, "oob_repr_invariance": 3400, "trim_compose": 1300,
                            "dist_union_monotone": 850, "mask_complement": 1200, "dist_exact_ties_removed": 600, "dims_unchanged": 3500},
                 min_known={"oob-lower-face": 500})
 
@@ -213,8 +213,12 @@ def _trim_post(ctx, A, S, result):
     def explain(i):
         return {"start": S["s"].tolist(), "end": S["e"].tolist(), "xyz_in_trimmed_volume": S["exp"][i, O.IX:O.IX + 3].tolist(),
                 "trimmed_size": (S["e"] - S["s"] + 1).tolist(), "original_xyz": S["arr"][i, O.IX:O.IX + 3].tolist()}
-    judge_set(ctx, "trim_exact", S["exp"], S["keep"], A["self"].df, explain,
-              what="adapt_to_trimming(%s, %s)" % (S["s"].tolist(), S["e"].tolist()))
+    ok = judge_set(ctx, "trim_exact", S["exp"], S["keep"], A["self"].df, explain,
+                   what="adapt_to_trimming(%s, %s)" % (S["s"].tolist(), S["e"].tolist()))
+    if np.all(S["s"] == 1.0):             # zero offset on all axes: same clause, counted separately so that it is never absent
+        ctx.check("trim_start_111", ok, {"start": S["s"].tolist(), "end": S["e"].tolist(), "n": int(len(S["arr"])),
+                                         "expected_kept": int(S["keep"].sum()), "observed_rows": int(len(A["self"].df)),
+                                         "start_argument_type": type(A["trim_coord_start"]).__name__})
 
 
 # ---- call monitor: clean_by_distance_to_points ------------------------------------------------------
@@ -316,7 +320,7 @@ def setup(ctx):
     f_trim = monitors.wrap(ctx, M, "adapt_to_trimming", "trim_exact", _trim_post, _trim_app, _oob_snap)
     f_dist = monitors.wrap(ctx, M, "clean_by_distance_to_points", "dist_exact", _dist_post, _dist_app, _oob_snap)
     f_mask = monitors.wrap(ctx, M, "clean_by_tomo_mask", "mask_exact", _mask_post, _mask_app, _oob_snap)
-    ctx.declare("dims_unchanged", "oob_lower", "oob_repr_invariance", "trim_compose", "dist_union_monotone", "mask_complement", "dist_exact_ties_removed")
+    ctx.declare("trim_start_111", "dims_unchanged", "oob_lower", "oob_repr_invariance", "trim_compose", "dist_union_monotone", "mask_complement", "dist_exact_ties_removed")
     monitors.trace(ctx, [
         ("Motl.remove_out_of_bounds_particles", f_oob, {"whole": "boundary = ceil(box_size / 2)", "center": "boundary = 0",
                                                         "particle_kept": "idx_list.append(i)"}),
@@ -602,17 +606,24 @@ def gen_trim(ctx, rng, cls, i):
     df, tl = base_table(rng, n, k)
     D = rng.integers(30, 130, 3).astype(float)
     start = np.array([rng.integers(1, int(D[a] // 2)) for a in range(3)], dtype=float)
+    for a in range(3):                        # no offset on some axes (start == 1) ...
+        if rng.random() < 0.2:
+            start[a] = 1.0
+    if cls == "trim_start_one":               # ... and on all three: the box only cuts the far side
+        start[:] = 1.0
     end = np.array([rng.integers(int(start[a]), int(D[a]) + 1) for a in range(3)], dtype=float)
+    if cls == "trim_start_one":
+        end = np.array([rng.integers(3, int(D[a]) + 1) for a in range(3)], dtype=float)
     if rng.random() < 0.12:
         a = int(rng.integers(0, 3))
         end[a] = start[a]
-    frac = rng.random() < 0.12
+    frac = rng.random() < 0.12 and cls != "trim_start_one"
     if frac:
         start += rng.choice([0.0, 0.5, 0.25], 3)
         end = np.maximum(end + rng.choice([0.0, 0.5, 0.75], 3), start)
     x = np.zeros((n, 3))
     for r in range(n):
-        hs = hostile_axes(rng, (0.2, 0.5, 0.2, 0.1)) if cls == "trim_faces" else np.zeros(3, dtype=bool)
+        hs = hostile_axes(rng, (0.2, 0.5, 0.2, 0.1)) if cls in ("trim_faces", "trim_start_one") else np.zeros(3, dtype=bool)
         for a in range(3):
             if cls == "trim_random" and not hs[a]:
                 x[r, a] = dy(rng, -10, D[a] + 10) if rng.random() < 0.35 else dy(rng, start[a], end[a])
@@ -637,6 +648,11 @@ def gen_trim(ctx, rng, cls, i):
     s2 = np.array([rng.integers(1, max(2, int(td[a] // 2) + 1)) for a in range(3)], dtype=float)
     e2 = np.array([rng.integers(int(s2[a]), max(int(s2[a]) + 1, int(td[a]) + 1)) for a in range(3)], dtype=float)
     argt = str(rng.choice(["list", "tuple", "array_i", "array_f"])) if not frac else str(rng.choice(["list", "array_f"]))
+    if cls == "trim_start_one":
+        argt = ["list", "tuple", "array_i", "array_f"][(i // len(CLASSES)) % 4]
+        if rng.random() < 0.5:
+            s2[:] = 1.0                       # the second and the composed box then start at (1,1,1) too
+            e2 = np.array([rng.integers(1, int(td[a]) + 1) for a in range(3)], dtype=float)
     arr = O.table(df)
     keep, _ = O.trim_expected(arr, start, end)
     case = dict(kind="trim", df=df, start=start, end=end, s2=s2, e2=e2, argt=argt, exp_kept=int(keep.sum()), n=n)
@@ -987,6 +1003,19 @@ def extra(ctx):
     if ok:
         ctx.call("adapt_to_trimming", m.adapt_to_trimming, s, e)
     ctx.extra["trim_face_value_lattice_particles (8^3)"] = len(pts)
+    # (2b) the same lattice for a box that starts at (1,1,1) (no offset, only the far side is cut), in every argument form
+    s, e = np.array([1.0, 1.0, 1.0]), np.array([6.0, 9.0, 4.0])
+    ax = [[s[a] - 4, s[a] - 1, s[a] - 0.125, s[a], s[a] + 0.125, e[a] - 0.125, e[a], e[a] + 0.125, e[a] + 1, e[a] + 30] for a in range(3)]
+    pts = [(x, y, z) for x in ax[0] for y in ax[1] for z in ax[2]]
+    forms = ["list", "tuple", "array_i", "array_f"]
+    for form in forms:
+        df = _lattice_table(rng, pts, 5)
+        for a, cx in enumerate(("x", "y", "z")):
+            df[cx] = np.asarray(pts)[:, a]
+        ok, m = ctx.call("Motl(df)", cm.Motl, df)
+        if ok:
+            ctx.call("adapt_to_trimming", m.adapt_to_trimming, _vecarg(s, form), _vecarg(e, form))
+    ctx.extra["trim_start_111_lattice_particles (10^3 x list/tuple/int array/float array)"] = len(pts) * len(forms)
     # (3) mask: one particle in every voxel of a small volume and in the one-voxel shell around it
     sh = (6, 5, 4)
     mask = (rng.random(sh) < 0.5).astype(np.float32)
